@@ -163,7 +163,7 @@ fn expected_fired(c: &SwCase, env: &Env) -> Vec<usize> {
 
 fn cfg_text(c: &SwCase) -> String {
     let mut s = String::from("(defcfg log-layer-changes no)\n");
-    s.push_str(&format!("(defsrc {} z)\n", KEYS.join(" ")));
+    s.push_str(&format!("(defsrc {} z m)\n", KEYS.join(" ")));
     s.push_str("(defvirtualkeys");
     for i in 0..N_VKEYS {
         s.push_str(&format!(" v{i} XX"));
@@ -185,10 +185,11 @@ fn cfg_text(c: &SwCase) -> String {
         action.push(')');
     }
     for l in 0..N_LAYERS {
+        // m: a macro that holds lsft for 60 ms (a key can also be active because a macro holds it)
         if l == 0 {
-            s.push_str(&format!("(deflayer l0 {} {action})\n", KEYS.join(" ")));
+            s.push_str(&format!("(deflayer l0 {} {action} (macro S-(f24 60 f24)))\n", KEYS.join(" ")));
         } else {
-            s.push_str(&format!("(deflayer l{l} {} {action})\n", KEYS.iter().map(|_| "_").collect::<Vec<_>>().join(" ")));
+            s.push_str(&format!("(deflayer l{l} {} {action} _)\n", KEYS.iter().map(|_| "_").collect::<Vec<_>>().join(" ")));
         }
     }
     s
@@ -566,11 +567,20 @@ fn run_pipeline(c: &SwCase) -> Verdict {
         Err(e) => return Verdict::failed("harness:switch-config-rejected", format!("{text}\n{e}")),
     };
     let env = &c.envs[0];
+    // hist_inputs non-empty marks "lsft is held by a macro instead of physically"
+    let macro_hold = !env.hist_inputs.is_empty() && env.active_keys.contains(&4);
     for k in &env.active_keys {
+        if macro_hold && *k == 4 {
+            continue;
+        }
         sim.press(key_code_of(*k));
         sim.tick_n(2);
     }
     sim.tick_n(5);
+    if macro_hold {
+        sim.press(code_of("m"));
+        sim.tick_n(8);
+    }
     let before = sim.outs.len();
     sim.press(code_of("z"));
     sim.tick_n(30);
@@ -582,13 +592,17 @@ fn run_pipeline(c: &SwCase) -> Verdict {
             // environment as the pipeline creates it: active keys = held keys, inputs = same,
             // history = the presses in order (most recent first), layer l0
             let mut e2 = env.clone();
-            e2.active_inputs = env.active_keys.iter().map(|k| (false, *k)).collect();
+            e2.hist_inputs.clear();
+            e2.active_inputs = env.active_keys.iter().filter(|k| !(macro_hold && **k == 4)).map(|k| (false, *k)).collect();
             e2.layers = vec![0];
             e2.base = 0;
             expected_fired(c, &e2)
         }
     };
     let mut v = Verdict::pass(true);
+    if macro_hold {
+        v.classes.push("trigger-held-by-macro");
+    }
     let mut fs = fired.clone();
     fs.dedup();
     if fs != want {
@@ -631,7 +645,7 @@ impl TypedProp for C10 {
                 },
             exhaustive: false,
             distinct_by_construction: false,
-            required_classes: vec!["switch-direct", "switch-pipeline", "fork-pipeline", "depth>=6", "cases>=8", "nodes>=20", "exhaustive-shape"],
+            required_classes: vec!["switch-direct", "switch-pipeline", "fork-pipeline", "trigger-held-by-macro", "depth>=6", "cases>=8", "nodes>=20", "exhaustive-shape"],
             hang_secs: 60,
         }
     }
@@ -651,7 +665,7 @@ impl TypedProp for C10 {
     fn strategy(&self, _tier: Tier, key: u32) -> BoxedStrategy<SwCase> {
         if key == 1 {
             // pipeline cases: key leaves only
-            let kexpr = (0usize..4).prop_map(|k| Expr::L(Leaf::Key(k))).prop_recursive(4, 24, 3, |inner| {
+            let kexpr = (0usize..5).prop_map(|k| Expr::L(Leaf::Key(k))).prop_recursive(4, 24, 3, |inner| {
                 prop_oneof![
                     prop::collection::vec(inner.clone(), 1..4).prop_map(Expr::And),
                     prop::collection::vec(inner.clone(), 1..4).prop_map(Expr::Or),
@@ -660,17 +674,18 @@ impl TypedProp for C10 {
             });
             return (
                 prop::collection::vec((prop::collection::vec(kexpr, 0..3), any::<bool>()), 1..6),
-                prop::collection::vec(0usize..4, 0..4),
-                prop::option::weighted(0.3, prop::collection::vec(0usize..4, 1..3)),
+                prop::collection::vec(0usize..5, 0..4),
+                prop::option::weighted(0.3, prop::collection::vec(0usize..5, 1..3)),
+                prop::bool::weighted(0.4),
             )
-                .prop_map(|(cases, mut held, fork)| {
+                .prop_map(|(cases, mut held, fork, macro_hold)| {
                     held.sort();
                     held.dedup();
                     SwCase {
                         cases,
                         envs: vec![Env {
                             hist_keys: held.iter().rev().map(|k| (*k, 0)).collect(),
-                            hist_inputs: vec![],
+                            hist_inputs: if macro_hold { vec![(false, 0, 0)] } else { vec![] },
                             active_inputs: vec![],
                             active_keys: held,
                             layers: vec![0],
